@@ -357,18 +357,36 @@ inline void t_options(In& in)
     // spans at most 2000 values (whatever the magnitude of its ends: ranges next to INT_MAX are legal and small).
     bool rangesSmall = true;
     {
+      // mirror of the library's own reading (ApplicationTools::getVectorParameter with a range operator): the outer
+      // parentheses are dropped when both are present, tokens are split at the separator only, the first occurrence of
+      // the range operator splits a token, and each end is what `std::istringstream >> int` reads (leading white space,
+      // optional sign, decimal digits; no digits reads as 0, out-of-range values are clamped): "inf", "0x10", "(5" and
+      // "1e9" are NOT the numbers std::stold would make of them.
+      auto asInt = [](const std::string& t) -> long double {
+        size_t k = 0;
+        while (k < t.size() && std::isspace(static_cast<unsigned char>(t[k]))) ++k;
+        bool neg = false;
+        if (k < t.size() && (t[k] == '+' || t[k] == '-')) { neg = t[k] == '-'; ++k; }
+        long double v = 0; bool any = false;
+        while (k < t.size() && t[k] >= '0' && t[k] <= '9') { v = v * 10 + (t[k] - '0'); any = true; ++k; if (v > 1e12L) break; }
+        if (!any) return 0;
+        v = neg ? -v : v;
+        if (v > 2147483647.0L) v = 2147483647.0L;
+        if (v < -2147483648.0L) v = -2147483648.0L;
+        return v;
+      };
+      std::string body = val;
+      if (body.size() >= 1 && body[0] == '(' && body[body.size() - 1] == ')') body = body.size() >= 2 ? body.substr(1, body.size() - 2) : "";
       std::string tok;
-      for (size_t i = 0; i <= val.size(); ++i)
+      for (size_t i = 0; i <= body.size(); ++i)
       {
-        char ch = i < val.size() ? val[i] : sep;
-        if (ch != sep && ch != '(' && ch != ')') { tok += ch; continue; }
+        char ch = i < body.size() ? body[i] : sep;
+        if (ch != sep) { tok += ch; continue; }
         for (char rop : { '-', ':' })
         {
-          size_t pos = tok.find(rop); // as the library does: first occurrence, an empty left end reads as 0
+          size_t pos = tok.find(rop);
           if (pos == std::string::npos) continue;
-          long double a = 0, b = 0;
-          try { a = std::stold(tok.substr(0, pos)); } catch (...) { a = 0; }
-          try { b = std::stold(tok.substr(pos + 1)); } catch (...) { b = 0; }
+          long double a = asInt(tok.substr(0, pos)), b = asInt(tok.substr(pos + 1));
           if (!(b - a <= 2000)) rangesSmall = false;
         }
         tok.clear();
